@@ -680,7 +680,12 @@ def lsp_script(case, files_per_step):
             steps.append({"request": "documentSymbol", "path": q, "line": 0, "character": 0})
         steps.append({"wait_idle": True})
         marks.append(req)
-    return {"files_on_disk": case["files"], "mode": "settled", "steps": steps,
+    # (server group) two sessions out of three run in a workspace directory whose name needs percent-encoding in a
+    # file: URI or contains URI-reserved / percent-like characters: the Vfs keys (editor buffers, file ids) and the URIs
+    # the server sends must not depend on how the path is spelled in the URI
+    subdirs = ["", "w #1", "\u00e9t\u00e9 dir", "", "c%41", "q?x"]
+    sub = subdirs[(len(case["history"]) + 2 * len(case["files"]) + len(steps)) % len(subdirs)]
+    return {"files_on_disk": case["files"], "mode": "settled", "steps": steps, "workspace_subdir": sub,
             "watchdog_ms": 10000, "quiet_ms": 300, "hard_ms": 60000}, marks
 
 
